@@ -41,17 +41,24 @@ def angle_interval_new_shape(cx, b):
     """shared with C11 (arc boxes are filtered through AngleInterval::new(angle0, angle).contains): a full turn stays a full turn"""
     # start normalised through angle_to_2pi of start (extent >= 0) resp. start + angle (extent < 0)
     lits = b.aggregates('common::angles::AngleInterval')
-    okn = len(lits) == 2
+    # one literal per branch, or one literal fed by `let (start, angle) = if angle < 0.0 {..} else {..}`: the field values are separated by
+    # the polarity of `angle < 0.0` either way
+    seen = {True: None, False: None}
     for s in lits:
-        d = cx.aggval(s)
-        neg = cx.guarded(b, s.bb, '(lt (param angle) 0.0)', True) is not None
-        pos = cx.guarded(b, s.bb, '(lt (param angle) 0.0)', False) is not None
-        if neg:
-            okn = okn and match('(agg * (start (call *angle_to_2pi (add (param angle) (param start)))) (angle (call f64::min (call f64::abs (param angle)) TAU)))', d) is not None
-        elif pos:
-            okn = okn and match('(agg * (start (call *angle_to_2pi (param start))) (angle (call f64::min (param angle) TAU)))', d) is not None
-        else:
-            okn = False
+        rv = s.data['rv']
+        fields = rv.get('fields', [])
+        if sorted(fields) != ['angle', 'start']:
+            continue
+        cs = cx.cases_by(b, s, rv['ops'], '(lt (param angle) 0.0)')
+        for pol in (True, False):
+            vals = dict(zip(fields, cs[pol]))
+            if all(v is not None for v in vals.values()):
+                seen[pol] = vals
+    okn = 1 <= len(lits) <= 2 and seen[True] is not None and seen[False] is not None
+    if okn:
+        okn = match('(call *angle_to_2pi (add (param angle) (param start)))', seen[True]['start']) is not None and \
+            match('(call f64::min (call f64::abs (param angle)) TAU)', seen[True]['angle']) is not None and \
+            match('(call *angle_to_2pi (param start))', seen[False]['start']) is not None and match('(call f64::min (param angle) TAU)', seen[False]['angle']) is not None
     cx.ob('EXPR', 'AngleInterval::new:shape', okn, 'a negative extent is the same set swept backwards: start := angle_to_2pi(start + angle), extent := min(|angle|, 2pi); otherwise angle_to_2pi(start), min(angle, 2pi)', where=b.file)
 
 
